@@ -5,7 +5,7 @@ and `select_a` (exhaustive enumeration for at most 5 factors, otherwise the samp
 the built-in xorshift generator, tolerance window and its widening, early exit).
 
 Conventions as in Ymq/Model/SiqsPoly.lean: `none` = a panic site of the checked profile (assert,
-`unwrap`, `usize` underflow, `% 0`, shift amount ≥ 64, `U256` overflow) — or, for `selectA`, the fuel
+`unwrap`, `usize` underflow, `% 0`, shift amount ≥ the width of `mask`, `U256` overflow) — or, for `selectA`, the fuel
 (maximal number of iterations of the sampling loop) running out, which stands for a loop that does
 not terminate.  The generator is part of the code (fixed seed), so the model is deterministic and is
 compared with the real functions directly.  `BTreeSet<Uint>` is a strictly increasing list.
@@ -133,7 +133,7 @@ def drawLoop (ps : List Nat) : Nat → Nat → Nat → List Nat → Nat → Opti
       if ps.length = 0 then none                                  -- rng % fb
       else
         let g := rng % ps.length
-        if g ≥ 64 then none                                       -- 1 << g
+        if g ≥ maskBits then none                                 -- 1 << g
         else if mask.contains g then drawLoop ps fuel need rng mask prod
         else
           let prod := prod * ps.getD g 0
@@ -183,7 +183,7 @@ def sampleLoop (tgt nfacs want : Nat) (ps : List Nat) :
       else
         let div := if iters % (widenEvery * want) = 0 ∧ cands.length < want then max div 1 - 1 else div
         let (amin, amax) := tolWindow tgt div
-        if ps.length > 64 then none                               -- 1 << g for g in 0..fb
+        if ps.length > maskBits then none                         -- 1 << g for g in 0..fb
         else
           match drawLoop ps (64 * 64 * 64) (nfacs - 1) rng [] 1 with
           | none => none
